@@ -24,21 +24,94 @@ def is_canon(c, r, base, e):
                         z3.And(pbase(c, r) == base, pexp(c, r) == e)))
 
 
+def opt_truthy(z):
+    return z3.And(OptStr.is_osome(z), z3.Length(OptStr.oget(z)) > 0)
+
+
+def I_RP(c):
+    """Prefix registries: a name (symbol) is bound to a prefix exactly when the prefix reports it."""
+    n = z3.String("n!RP")
+    p = z3.Const("p!RP", Ref("Prefix"))
+    lv = lambda r: z3.And(c.alivez("Prefix", r), c.fz("Prefix", r, "_initialized"))
+    for reg, fld in (("Prefix._by_name", "name"), ("Prefix._by_symbol", "symbol")):
+        T = c.g(reg)
+        yield "I_RP.%s-reported" % fld, z3.ForAll([n], z3.Implies(
+            z3.Select(T.dom, n), z3.And(lv(z3.Select(T.val, n)), c.fz("Prefix", z3.Select(T.val, n), fld) == OptStr.osome(n), z3.Length(n) > 0)))
+        yield "I_RP.%s-bound" % fld, z3.ForAll([p], z3.Implies(
+            z3.And(lv(p), opt_truthy(c.fz("Prefix", p, fld))),
+            z3.And(z3.Select(T.dom, OptStr.oget(c.fz("Prefix", p, fld))), z3.Select(T.val, OptStr.oget(c.fz("Prefix", p, fld))) == p)))
+
+
+INVARIANTS["I_RP"] = I_RP
+
+
 @contract
 class PrefixCtor(Contract):
-    """Prefix(base, exponent) without name/symbol (the arithmetic call sites)."""
+    """Prefix(base, exponent[, name, symbol]): the canonical object; a declared name and
+    symbol end up bound to it and reported by it (also when an equal anonymous prefix
+    already existed), or ValueError and no registry changed (C19)."""
     qual = "measured.Prefix"
     ctor = True
-    props = ("C02", "C11")
-    inv = ("I_P",)
-    modifies = ("new:Prefix", "Prefix._known")
-    types = {"base": [("int",)], "exponent": [("int",), ("float",), ("dec",)], "name": [("none",)], "symbol": [("none",)]}
+    props = ("C02", "C11", "C19")
+    inv = ("I_P", "I_RP")
+    modifies = ("new:Prefix", "Prefix._known", "Prefix._by_name", "Prefix._by_symbol", "Prefix.name", "Prefix.symbol")
+    types = {"base": [("int",)], "exponent": [("int",), ("float",), ("dec",)], "name": [("none",), ("str",)], "symbol": [("none",), ("str",)]}
     ret = T_PFX
+
+    def _target(self, c, a):
+        from pyvc.ops import to_num
+        e = to_num(a.exponent).val
+        T = c.g("Prefix._known")
+        collapse = z3.And(a.base.z != 0, e == 0)
+        k = pkey(a.base.z, e)
+        exists = z3.Or(collapse, z3.Select(T.dom, k))
+        target = z3.If(collapse, IdentityPrefix.ref, z3.Select(T.val, k))
+        return exists, target
+
+    def _conflicts(self, c, a):
+        exists, target = self._target(c, a)
+        out = []
+        for arg, reg, fld in ((a.name, "Prefix._by_name", "name"), (a.symbol, "Prefix._by_symbol", "symbol")):
+            if isinstance(arg, VNone):
+                continue
+            R = c.g(reg)
+            t = z3.Length(arg.z) > 0
+            out.append(z3.And(t, z3.Select(R.dom, arg.z), z3.Not(z3.And(exists, z3.Select(R.val, arg.z) == target))))
+            cur = c.fz("Prefix", target, fld)
+            out.append(z3.And(t, exists, opt_truthy(cur), OptStr.oget(cur) != arg.z))
+        return z3.Or(out) if out else z3.BoolVal(False)
+
+    def raises(self, c, a):
+        yield "ValueError", self._conflicts(c, a), "name-or-symbol-conflict"
+
+    def exc_ensures(self, c, a, exc):
+        o = c.old
+        p = z3.Const("p!ex", Ref("Prefix"))
+        yield "by_name-unchanged", table_unchanged(c, "Prefix._by_name")
+        yield "by_symbol-unchanged", table_unchanged(c, "Prefix._by_symbol")
+        yield "reported-unchanged", z3.ForAll([p], z3.Implies(z3.And(o.alivez("Prefix", p), o.fz("Prefix", p, "_initialized")), z3.And(
+            c.fz("Prefix", p, "name") == o.fz("Prefix", p, "name"), c.fz("Prefix", p, "symbol") == o.fz("Prefix", p, "symbol"))))
 
     def ensures(self, c, a, r):
         from pyvc.ops import to_num
+        o = c.old
         yield "canonical", is_canon(c, r, a.base.z, to_num(a.exponent).val)
         yield "table-grows", same_table_grows(c, "Prefix._known")
+        p = z3.Const("p!en", Ref("Prefix"))
+        for arg, reg, fld in ((a.name, "Prefix._by_name", "name"), (a.symbol, "Prefix._by_symbol", "symbol")):
+            R, R0 = c.g(reg), o.g(reg)
+            if isinstance(arg, VNone):
+                yield reg + "-unchanged", table_unchanged(c, reg)
+                yield fld + "-of-old-prefixes-unchanged", z3.ForAll([p], z3.Implies(
+                    z3.And(o.alivez("Prefix", p), o.fz("Prefix", p, "_initialized")), c.fz("Prefix", p, fld) == o.fz("Prefix", p, fld)))
+                continue
+            t = z3.Length(arg.z) > 0
+            yield fld + "-bound-and-reported", z3.Implies(t, z3.And(z3.Select(R.dom, arg.z), z3.Select(R.val, arg.z) == r.ref,
+                                                                  c.f(r, fld) == OptStr.osome(arg.z)))
+            yield reg + "-others-kept", z3.And(R.dom == z3.If(t, z3.Store(R0.dom, arg.z, z3.BoolVal(True)), R0.dom),
+                                               R.val == z3.If(t, z3.Store(R0.val, arg.z, r.ref), R0.val))
+            yield fld + "-of-other-prefixes-unchanged", z3.ForAll([p], z3.Implies(
+                z3.And(o.alivez("Prefix", p), o.fz("Prefix", p, "_initialized"), p != r.ref), c.fz("Prefix", p, fld) == o.fz("Prefix", p, fld)))
 
 
 def same_base_or_log(c, a, sign):
